@@ -51,6 +51,9 @@ var (
 // definitelyViolates is written from the documentation table and errs on the permissive side wherever the docs are
 // silent (byte vs. rune length, integer width, float syntax, guid spellings).
 func (c Cons) definitelyViolates(v string) bool {
+	if f, ok := overrides[c.Name]; ok && overridden[c.Name] {
+		return !f(v)
+	}
 	isInt := reInt.MatchString(v)
 	atoi := func(s string) int { n, _ := strconv.Atoi(s); return n }
 	// integer comparisons of any width (a value beyond 64 bits is still larger than max(50))
@@ -141,6 +144,7 @@ type Case struct {
 	Filling           []string   `json:",omitempty"` // values the path was built from (pool i), nil for look-alikes / noise
 	Kind              string     // filling | patterntext | noise
 	Prior             []PriorReq `json:",omitempty"` // requests served by the same app (pooled ctx) before the main one
+	Override          []string   `json:",omitempty"` // built-in constraint names under which the app registered a custom constraint of its own
 }
 
 // PriorReq is an earlier request on the same app; the same oracle applies to it.
@@ -148,6 +152,27 @@ type PriorReq struct {
 	Path    string
 	Filling []string `json:",omitempty"`
 }
+
+// overrides: custom constraints an application may register under the name of a built-in one; the documentation says
+// the registered constraint is then the one that is used. overridden is the set the current case registered.
+var overrides = map[string]func(string) bool{
+	"int":   func(v string) bool { return regexp.MustCompile(`^[0-9]+$`).MatchString(v) }, // digits only, no sign
+	"bool":  func(v string) bool { return v == "true" || v == "false" },
+	"alpha": func(v string) bool { return regexp.MustCompile(`^[a-zA-Z]+$`).MatchString(v) },
+}
+var overridden = map[string]bool{}
+
+func setOverridden(names []string) {
+	overridden = map[string]bool{}
+	for _, n := range names {
+		overridden[n] = true
+	}
+}
+
+type overrideC struct{ name string }
+
+func (o overrideC) Name() string                           { return o.name }
+func (o overrideC) Execute(param string, _ ...string) bool { return overrides[o.name](param) }
 
 type evenC struct{}
 
@@ -215,6 +240,11 @@ func check(c Case) vk.Verdict {
 	app := fiber.New(fiber.Config{CaseSensitive: c.CS, StrictRouting: c.Strict, UnescapePath: c.Unesc})
 	app.RegisterCustomConstraint(evenC{})
 	app.RegisterCustomConstraint(evenCapC{})
+	setOverridden(c.Override)
+	defer setOverridden(nil)
+	for _, n := range c.Override {
+		app.RegisterCustomConstraint(overrideC{n})
+	}
 	hit := 0
 	var got []string
 	var gotPath, routePath string
@@ -481,6 +511,11 @@ func satisfying(t *rapid.T, tk Tok) string {
 func genCase(t *rapid.T) Case {
 	c := Case{CS: rapid.Bool().Draw(t, "cs"), Strict: rapid.Bool().Draw(t, "strict"), Unesc: rapid.Bool().Draw(t, "unesc"),
 		Use: rapid.IntRange(0, 4).Draw(t, "use") == 0}
+	if rapid.IntRange(0, 3).Draw(t, "override") == 0 {
+		c.Override = rapid.SliceOfNDistinct(rapid.SampledFrom([]string{"int", "bool", "alpha"}), 1, 2, rapid.ID[string]).Draw(t, "overridden")
+	}
+	setOverridden(c.Override) // value generation below asks the constraint model
+	defer setOverridden(nil)
 	c.Toks = genToks(t)
 	c.Pattern = patternOf(c.Toks)
 	switch rapid.SampledFrom([]string{"filling", "filling", "filling", "filling", "patterntext", "noise"}).Draw(t, "pathkind") {
